@@ -243,6 +243,11 @@ func (b *OutboundBreaker) init(limit int64, interval time.Duration) (*OutboundBr
 	if limit < 1 {
 		return nil, fmt.Errorf("bad limit %d", limit)
 	}
+	if interval < time.Duration(breakerTicks) {
+		// The resolution of the sliding window (interval/ticks
+		// nanoseconds) would be zero.
+		return nil, fmt.Errorf("bad interval %v", interval)
+	}
 	ticks := breakerTicks
 	b.limit = limit
 	b.interval = interval
